@@ -100,7 +100,7 @@ def build(kind, start, every, d=1, ncomp=1, time_first=False, system=False, odd=
         # hetero: kappa is a space-time dependent coefficient (the residual the loss minimises is the one with kappa(t, x))
         hk = dict(eq_params_heterogeneity={"kappa": _het_kappa}) if hetero else {}
         loss = LossPDENonStatio(u=u, dynamic_loss=Eq(Tmax=1, **hk), params=params)
-        n_, n0_, nt_, nt0_ = (13, 4, 7, 3) if time_first else ((9, 4, 8, 3) if odd else (10, 4, 9, 3))
+        n_, n0_, nt_, nt0_ = (13, 4, 7, 3) if time_first else ((12, 7, 8, 3) if odd else (10, 4, 9, 3))      # odd: free room not a multiple of the selected sizes, and n_start - nt_start larger than one selected set
         rp = dict(rp, selected_sample_size_omega=3)
         data = DG.CubicMeshPDENonStatio(key=key, n=n_, nb=None, nt=nt_, omega_batch_size=2, omega_border_batch_size=None, temporal_batch_size=2, dim=d,
                                         min_pts=(0.0,) * d, max_pts=(1.0,) * d, tmin=TMIN, tmax=1.0, rar_parameters=rp, n_start=n0_, nt_start=nt0_)
